@@ -171,3 +171,23 @@ def canon_hash(obj):
 
 def log(*a):
     print(*a, flush=True)
+
+
+def attribute_panics(rep, lane, cases, outs):
+    """A panic of the implementation on a program-carrying case ((run|run-t|run-ty|call|call-t "text" ..))
+    is a violation of C03 when `Code::parse` alone panics on the text, of C02 otherwise (the program
+    was accepted and panicked while running).  Appends the violations to rep."""
+    import re
+    pk = []
+    for c, o in zip(cases, outs):
+        if o.startswith("!panic"):
+            m = re.match(r'^\((?:run|run-t|run-ty|call|call-t) ("(?:[^"\\]|\\.)*")', c)
+            if m:
+                pk.append((c, o, m.group(1)))
+    if not pk:
+        return
+    po = run_cases(HARNESS, [f"(parse-ty {t})" for _, _, t in pk], timeout=120)
+    for (c, o, t), q in zip(pk, po):
+        prop = "C03" if q.startswith("!") else "C02"
+        rep.violations.append({"property": prop, "lane": lane, "case": c,
+                               "what": ("Code::parse panics: " if prop == "C03" else "an accepted program panics: ") + o[:200]})
